@@ -450,6 +450,48 @@ def Thread.believes {w : Width} (th : Thread w) : Option (Word w) :=
     | _ => none
   | _ => none
 
+/-! ### progress bookkeeping -/
+
+/-- inside a retry loop whose current attempt has not succeeded: the number of further instructions of the thread
+    up to and including its next successful `lock cmpxchg`, provided nobody else commits meanwhile
+    (`c` = current value of the object); 15 more if what the thread believes is already stale (one failing
+    round: 9 instructions from `sete` back to the loop head, 6 from there to the `lock cmpxchg`) -/
+def Thread.distance {w : Width} (th : Thread w) (c : Word w) : Nat :=
+  let stale := if th.believes = some c then 0 else 15
+  match th.pc with
+  | .init0 => 8
+  | .init1 => 7 + stale
+  | .compute => 6 + stale
+  | .casNew => 5 + stale
+  | .casOld => 4 + stale
+  | .popRdx => 3 + stale
+  | .popRdi => 2 + stale
+  | .cmpxchg => 1 + stale
+  | .sete => 15 + stale
+  | .je => 14 + stale
+  | .wb => 13 + stale
+  | .movzbl => 12 + stale
+  | .cmp1 => 11 + stale
+  | .seteAl => 10 + stale
+  | .movzx => 9 + stale
+  | .cmp2 => 8 + stale
+  | .jne => 7 + stale
+  | _ => 0
+
+/-- number of operations committed so far -/
+def ncommits {w : Width} (s : Sys w) : Nat := (commits s.log).length
+
+/-- the thread-`t` part of the progress argument: what holds of thread `t` as long as nobody commits -/
+def Waiting {w : Width} (s : Sys w) (t : Nat) (f : Word w → Option (Word w)) (ro : Bool) (rest : List (Oper w)) : Prop :=
+  ∃ th, s.threads[t]? = some th ∧ th.todo = .rmw f ro :: rest ∧ th.pendingRes = none ∧ th.pc ≠ .trap
+
+def distanceOf {w : Width} (s : Sys w) (t : Nat) : Nat :=
+  match s.threads[t]? with
+  | some th => th.distance s.cell
+  | none => 0
+
+def trapped {w : Width} (s : Sys w) (t : Nat) : Prop := ∃ th, s.threads[t]? = some th ∧ th.pc = .trap
+
 /-! ### the operators of `op=` as functions on the object value
 
 The right operand has the object's type `T` (the generated programs declare it so); both operands
@@ -502,6 +544,27 @@ def Op.fn (w : Width) (sg : Bool) (op : Op) (val : Word w) (old : Word w) : Opti
     (opAt 32 true op a b).map (·.setWidth 16)
   | .w32, val, old => opAt 32 sg op old val
   | .w64, val, old => opAt 64 sg op old val
+
+/-- the operators whose update functions never trap and commute with one another inside a class:
+    `+=`/`-=` (hence `++`/`--`), `*=`, `&=`, `|=`, `^=` -/
+def Op.commClass : Op → Option Nat
+  | .add | .sub => some 0
+  | .mul => some 1
+  | .band => some 2
+  | .bor => some 3
+  | .bxor => some 4
+  | _ => none
+
+/-- their value at the object's own width (what `(T)(old op val)` comes to after the promotions) -/
+def Op.pure {n : Nat} (op : Op) (c v : BitVec n) : BitVec n :=
+  match op with
+  | .add => c + v
+  | .sub => c - v
+  | .mul => c * v
+  | .band => c &&& v
+  | .bor => c ||| v
+  | .bxor => c ^^^ v
+  | _ => c
 
 /-! ### emitted text of each step (compared with `chibicc -S` by checklib/C16.py)
 
